@@ -164,6 +164,17 @@ func (propC04) Gen(seed uint64, tier string, idx int) *Plan {
 			id++
 		}
 	}
+	if len(p.Endpoints) >= 2 && r.Chance(120) {
+		// nothing rejects endpoints that share a configured name: whatever identifies an endpoint to the
+		// retry and status logic has to tell such twins apart
+		twin := pickS(r, []string{"gpu-box", p.Endpoints[0].Name})
+		for i := range p.Endpoints {
+			if i < 2 || r.Chance(300) {
+				p.Endpoints[i].CfgName = twin
+			}
+		}
+		p.Sub += "/same-name"
+	}
 	stmtYields(r, p, 300)
 	p.Deadline = 120 * time.Second
 	p.Settle = 100 * time.Millisecond
@@ -340,6 +351,25 @@ func (propC04) Check(r *Run) []Violation {
 						continue
 					}
 					if failsSinceSuccess[cand] == 0 {
+						// the olla engine keeps its circuit breakers by configured name: endpoints that share a
+						// name share a breaker, so a namesake's failures can close the door on this candidate
+						sharedBy := ""
+						if r.Plan.Stack.Engine == "olla" {
+							cfgOf := map[string]string{}
+							for _, e := range r.Plan.Endpoints {
+								cfgOf[e.Name] = e.cfgName()
+							}
+							for other, n := range failsSinceSuccess {
+								if other != cand && n > 0 && cfgOf[other] == cfgOf[cand] {
+									sharedBy = other
+								}
+							}
+						}
+						if sharedBy != "" {
+							add("C04/gave-up-with-untried-candidate/namesake-shares-olla-breaker", "op %d: client got status %d err=%q after attempts %v; candidate %s was never tried although it has no failure on record: it is configured under the same name (%q) as %s, whose failures opened the breaker the olla engine keeps per name; candidates=%v",
+								c.OpID, c.Status, c.Err, atts, cand, cfgOfName(r.Plan, cand), sharedBy, cands)
+							break
+						}
 						add("C04/gave-up-with-untried-candidate/first="+firstKind, "op %d: client got status %d err=%q after attempts %v, but healthy candidate %s (no failure on record, so no breaker can be open) was never tried; candidates=%v",
 							c.OpID, c.Status, c.Err, atts, cand, cands)
 						break
@@ -405,4 +435,13 @@ func failsSinceSuccessZero(r *Run, c *ClientResult) bool {
 		}
 	}
 	return true
+}
+
+func cfgOfName(p *Plan, name string) string {
+	for _, e := range p.Endpoints {
+		if e.Name == name {
+			return e.cfgName()
+		}
+	}
+	return name
 }
